@@ -8,6 +8,7 @@
      side        "client" | "server"
      identity    no content coding (the bound on buffered bytes is then one network piece)
      br          brotli (the library's output limit is soft, see CallCap)
+     deflate     Content-Encoding: deflate (zlib-wrapped or raw)
      limit       read_bufsize
      cms         client_max_size (server; 0 = unlimited)
      refOk       the trusted one-shot decoder accepted the encoded body
@@ -51,7 +52,8 @@
                                 the bound (EOF overtakes held-back input) after the stale
                                 HttpPayloadParser._paused flag was observed (st = 1)
      TruncatedStreamCleanEof    a coded stream that stops before its end marker (gzip / br / zstd)
-                                with intact HTTP framing ends in a clean EOF                    *)
+                                with intact HTTP framing ends in a clean EOF
+   (the same for deflate is the ordinary property clause TruncatedDeflateCleanEof)                    *)
 EXTENDS Naturals, Integers, Sequences, TLC, TraceBatch
 
 VARIABLES tid, l, outcome, errSeen, tot, dg, stale, bad
@@ -80,6 +82,12 @@ TooManySteps(steps) == steps \div 60 > C.inLen + C.refLen + C.pauses + 10
 
 ErrExpected == ~C.refOk \/ C.netTrunc
 
+\* a coded stream that stops before its end marker and is delivered as a complete body.  The code
+\* reports it for deflate (DeflateBuffer.feed_eof: `encoding == "deflate" and not decompressor.eof`)
+\* and knowingly not for gzip / br / zstd (the recorded deviation): two different clauses, so that a
+\* truncated deflate stream that gets a clean EOF is never covered by the recorded deviation
+TruncClause == IF C.deflate THEN "TruncatedDeflateCleanEof" ELSE "TruncatedStreamCleanEof"
+
 \* ------------------------------------------------------------------ one event
 EvBad(e) ==
     LET o == e.obs IN
@@ -99,7 +107,7 @@ EvBad(e) ==
                      THEN IF tot # C.refLen THEN "WrongLength"
                           ELSE IF dg # C.refDigest THEN "WrongBytes" ELSE ""
                 ELSE IF tot > C.refLen \/ e.k # dg THEN "CorruptDelivered"
-                ELSE IF C.refWhy = "truncated" THEN "TruncatedStreamCleanEof"
+                ELSE IF C.refWhy = "truncated" THEN TruncClause
                 ELSE "CorruptCleanEof"
            [] e.ev = "err" ->
                 IF ~ErrExpected THEN "SpuriousError"
@@ -110,7 +118,7 @@ EvBad(e) ==
                 IF e.s = "ok"
                 THEN IF C.cms > 0 /\ e.n > C.cms THEN "MaxSizeReturnedMore"
                      ELSE IF ErrExpected
-                          THEN (IF C.refWhy = "truncated" /\ ~C.netTrunc /\ e.n <= C.refLen THEN "TruncatedStreamCleanEof"
+                          THEN (IF C.refWhy = "truncated" /\ ~C.netTrunc /\ e.n <= C.refLen THEN TruncClause
                                 ELSE "CorruptCleanEof")
                      ELSE IF e.n # C.refLen THEN "WrongLength"
                      ELSE IF e.m # C.refDigest THEN "WrongBytes" ELSE ""
